@@ -2,7 +2,7 @@
     definition of ClusterTopo / ClusterDo / ClusterBatch that a theorem talks about is evaluated here
     on the inputs the real client saw, and compared with what the real client did. *)
 From Coq Require Import List Arith NArith ZArith Bool.
-Require Export RV.Model.Base RV.Model.ClusterTopo RV.Model.Retry RV.Model.ClusterDo RV.Model.ClusterBatch.
+Require Export RV.Model.Base RV.Model.ClusterTopo RV.Model.ClusterSpec RV.Model.ClusterShardSpec RV.Model.Retry RV.Model.ClusterDo RV.Model.ClusterBatch.
 Import ListNotations.
 Open Scope Z_scope.
 
@@ -93,7 +93,25 @@ Fixpoint wire_ids (w : list (option ipair)) (asking : bool) : list idask :=
 Definition sends_of_node (sends : list (nat * wsend)) (a : addr) : list idask :=
   flat_map (fun kw => let w := snd kw in if addr_eqb (w_to w) a then wire_ids (w_wire w) (w_asking w) else []) sends.
 
+Fixpoint msg_eqb (a b : msg) {struct a} : bool :=
+  match a, b with
+  | MStr t s, MStr t' s' => (t =? t')%N && bytes_eqb s s'
+  | MInt t i, MInt t' i' => (t =? t')%N && (i =? i')
+  | MAgg t vs, MAgg t' vs' =>
+    (t =? t')%N &&
+    (fix go (l1 l2 : list msg) : bool :=
+       match l1, l2 with
+       | [], [] => true
+       | x :: r1, y :: r2 => msg_eqb x y && go r1 r2
+       | _, _ => false
+       end) vs vs'
+  | MNil, MNil => true
+  | _, _ => false
+  end.
+
 Inductive case :=
+| CEncSlots (dh : bytes) (es : list sentry) (m : msg) (impl : result (list igroup))
+| CEncShards (dh : bytes) (tls : bool) (l : list shard) (m : msg) (impl : result (list igroup))
 | CParseEndpoint (dh ep : bytes) (port : Z) (impl : option addr)
 | CParseSlots (dh : bytes) (m : msg) (impl : result (list igroup))
 | CParseShards (dh : bytes) (tls : bool) (m : msg) (impl : result (list igroup))
@@ -108,6 +126,8 @@ Inductive case :=
 
 Definition check_case (c : case) : bool :=
   match c with
+  | CEncSlots dh es m impl => msg_eqb (enc_slots es) m && groups_match (parse_slots dh (enc_slots es)) impl
+  | CEncShards dh tls l m impl => msg_eqb (enc_shards l) m && groups_match (parse_shards dh tls (enc_shards l)) impl
   | CParseEndpoint dh ep port impl => option_eqb addr_eqb (parse_endpoint dh ep port) impl
   | CParseSlots dh m impl => groups_match (parse_slots dh m) impl
   | CParseShards dh tls m impl => groups_match (parse_shards dh tls m) impl
